@@ -87,12 +87,12 @@ def gen_history(ctx: Ctx, n: int, fixes: dict) -> list[tuple]:
         k = rng.choices(
             ["predict", "detlink", "est_u", "em", "prior", "ctf", "rtf", "fm", "c2", "cluster", "inv", "chg",
              "acc_col", "err_col", "acc_tab", "err_tab", "m_col", "m_pair", "unlink", "profile", "complete", "ba_count",
-             "ba_cum", "ba_nl", "multi", "metrics", "sbl"],
+             "ba_cum", "ba_nl", "multi", "metrics", "sbl", "fm_fail", "c2_fail"],
             [5, 2, 2, 2, 2, 3, 3, 2, 2, 2, 2, 2,
-             3, 2, 2, 2, 2, 2, 1, 1, 1, 1, 1, 1, 1, 2 if fixes.get("fx717") else 0, 2])[0]
+             3, 2, 2, 2, 2, 2, 1, 1, 1, 1, 1, 1, 1, 2 if fixes.get("fx717") else 0, 2, 3, 2])[0]
         if k == "est_u":
             hist.append((k, rng.choice([0, 1, 2])))
-        elif k in ("em", "prior", "cluster", "ba_count", "ba_nl", "metrics", "sbl"):
+        elif k in ("em", "prior", "cluster", "ba_count", "ba_nl", "metrics", "sbl", "fm_fail"):
             hist.append((k, rng.choice([0, 1])))
         elif k == "ctf":
             hist.append((k, rng.choice(X.TF_COLS)))
@@ -116,6 +116,7 @@ def run_history(ctx: Ctx, backend: str, hist: list[tuple], fixes: dict, avoid_fi
     init = X.coq_init(w.tables, w.version, w.tfcols, w.params, fixes)
     steps, done, raised = [], [], None
     routes, tf_problems = [], []
+    failing, res_extra = [], {}
     for op in hist:
         if avoid_findings and op[0] == "rtf" and not fixes["fx77"] and "__splink__df_concat_with_tf" in w.cache \
                 and op[1] not in w.registered:
@@ -125,6 +126,26 @@ def run_history(ctx: Ctx, backend: str, hist: list[tuple], fixes: dict, avoid_fi
             op = ("cluster", op[1])  # single best links needs source datasets (link world)
         if link and op[0] in ("multi", "metrics"):
             op = ("sbl", 0)        # these take a single node table / id column here: dedupe world only
+        if op[0] in X.World.FAILING:
+            # a call built to FAIL; not a step of the model's trace: with __splink__df_concat_with_tf cached it executes and
+            # caches nothing (checked), and it must leave saved model, blocking rules, link type and retain flags alone.
+            # On a linker without the cached concat it is exercised by failing_calls() instead.
+            if "__splink__df_concat_with_tf" not in w.cache:
+                continue
+            snap, listing = w.settings_snapshot(), w.observe()[2]
+            w.reset_trackers()
+            err = w.fail(op)
+            ex, _, listing2 = w.observe()
+            after = w.settings_snapshot()
+            changed = sorted(k for k in snap if snap[k] != after[k])
+            failing.append({"op": op, "position": len(done), "raised": err, "changed": changed,
+                            "before": {k: snap[k] for k in changed if k != "saved_model"},
+                            "after": {k: after[k] for k in changed if k != "saved_model"},
+                            "executed": ex, "cache_changed": listing != listing2})
+            if changed and "saved_before" not in res_extra:
+                res_extra["saved_before"] = snap["saved_model"]
+            done.append(op)
+            continue
         w.reset_trackers()
         term, raised = w.apply(op)
         if raised:
@@ -137,7 +158,7 @@ def run_history(ctx: Ctx, backend: str, hist: list[tuple], fixes: dict, avoid_fi
         steps.append((term, w.observe()))
         done.append(op)
     res = {"backend": backend, "history": done, "raised": raised, "init": init, "steps": steps, "link": link,
-           "routes": routes, "tf_problems": tf_problems}
+           "routes": routes, "tf_problems": tf_problems, "failing": failing}
     if probe_op is not None:
         if probe_op[0] == "sbl" and not link:
             probe_op = ("cluster", 0)
@@ -148,11 +169,19 @@ def run_history(ctx: Ctx, backend: str, hist: list[tuple], fixes: dict, avoid_fi
             # a cached tf table (documented, warned); with a lookup registered for every tf column they must equal the
             # fresh linker's whatever ran before
             probe_op = ("predict",)
+    a = None
     if raised is None:
-        a = w.predict_rows()
+        try:
+            a = w.predict_rows()
+        except Exception as e:  # noqa: BLE001
+            raised = res["raised"] = f"predict() after the history: {type(e).__name__}: {e}"[-600:]
+    if raised is None:
         f = w.fresh()
-        b = f.predict_rows()
-        res["diff"] = X.rows_diff(a, b)
+        try:
+            b = f.predict_rows()
+            res["diff"] = X.rows_diff(a, b)
+        except Exception as e:  # noqa: BLE001
+            res["diff"] = {"why": "the fresh linker built from the saved model raised in predict()", "error": f"{type(e).__name__}: {e}"[-400:]}
         res["n_rows"] = len(a)
         if res["diff"] is None and probe_op is not None:
             # a second table-returning operation: its output must be that of the fresh linker too
@@ -164,6 +193,12 @@ def run_history(ctx: Ctx, backend: str, hist: list[tuple], fixes: dict, avoid_fi
                 res["diff"] = {"operation": probe_op, **d2}
             res["probe_op"] = probe_op
         f.close()
+        if "saved_before" in res_extra and a is not None:
+            # a failing call changed the settings: what that does to predict(), against a fresh linker built from the model
+            # saved BEFORE that call (only meaningful when no later operation changes the model; reported as illustration)
+            fb = w.fresh(settings=res_extra["saved_before"])
+            res["predict_vs_fresh_from_model_saved_before_the_failing_call"] = X.rows_diff(a, fb.predict_rows())
+            fb.close()
     w.close()
     return res
 
@@ -283,6 +318,27 @@ def history_stage(ctx: Ctx, fixes: dict):
                           classify(small))
     ctx.obligation("oracle: predict() equals fresh linker on every generated history",
                    all(r["diff"] is None for r in ok_results))
+    # 2a. calls built to fail: they raise, execute and cache nothing, and leave the settings as they were
+    n_fail = 0
+    for r in results:
+        for fc in r["failing"]:
+            ctx.hist("failing_call", fc["op"][0])
+            pb = (["did not raise"] if fc["raised"] is None else []) + [f"changed {c}" for c in fc["changed"]] + \
+                 (["executed " + ", ".join(fc["executed"])] if fc["executed"] else []) + (["cache content changed"] if fc["cache_changed"] else [])
+            if not pb:
+                continue
+            n_fail += 1
+            if n_fail > 2:
+                continue
+            ctx.violation("a failing find_matches_to_new_records / compare_two_records call did not leave the linker as it was: " + "; ".join(pb),
+                          {"case": r["history"][:fc["position"] + 1], "original_history": r["history"], "backend": r["backend"],
+                           "link": r["link"], "implementation": {k: fc[k] for k in ("raised", "changed", "before", "after", "executed")},
+                           "predict_vs_fresh_linker_from_the_model_saved_before": r.get("predict_vs_fresh_from_model_saved_before_the_failing_call"),
+                           "specification": "the call raises and the saved model, blocking rules, link type and retain flags are "
+                                            "those before the call, so predict() equals a fresh linker built from the model saved before it"},
+                          {"scenario": "failing_call_changes_settings", "op": fc["op"][0], "changed": fc["changed"]})
+    ctx.obligation("failing calls inside histories raise, execute/cache nothing and leave saved model, blocking rules, link type and "
+                   "retain flags unchanged", n_fail == 0)
     # 2b. term frequencies of new records follow the route cached tf table > select distinct from cached concat_with_tf > NULL
     n_tf = 0
     for r in ok_results:
@@ -356,6 +412,8 @@ def witness_stage(ctx: Ctx, fixes: dict):
                       {"model_mismatch": True, "history_class": "predict_registerTF_predict"})
     # (b) two linkers sharing one DatabaseAPI (listed as known in the property text)
     two_linkers(ctx, fixes)
+    # (b') calls that fail must leave the linker as it was (also on a linker that has cached nothing yet)
+    failing_calls(ctx)
     # (d) 7.16 estimate_u unseeded twice
     estimate_u_twice(ctx)
     # (e) 7.17 compute_graph_metrics twice on one linker
@@ -442,6 +500,50 @@ def retained_results_mechanism(ctx: Ctx, fixes: dict):
         ctx.obligation(f"retained result table + unchanged _cache_uid: the implementation serves the stale table through the "
                        f"DB-existence fallback exactly as the model variant predicts ({backend})",
                        raised is None and d is not None and not bad and not errs, "; ".join(errs)[:600])
+
+
+def failing_calls(ctx: Ctx):
+    """find_matches_to_new_records / compare_two_records built to raise, on a new linker and after predict / EM: afterwards
+    the settings are those before the call and predict() equals a fresh linker built from the model saved BEFORE the call
+    (the model saved after it would carry the damage too)."""
+    n_bad = 0
+    for backend in ("duckdb", "sqlite"):
+        for pre in ([], [("predict",)]) if ctx.quick else ([], [("predict",)], [("em", 0)], [("detlink",), ("cluster", 0)]):
+            for op in (("fm_fail", 0), ("fm_fail", 1), ("c2_fail",)):
+                w = X.World(backend)
+                for o in pre:
+                    w.apply(o)
+                snap = w.settings_snapshot()
+                err = w.fail(op)
+                after = w.settings_snapshot()
+                changed = sorted(k for k in snap if snap[k] != after[k])
+                f = w.fresh(settings=snap["saved_model"])
+                try:
+                    d = X.rows_diff(w.predict_rows(), f.predict_rows())
+                except Exception as e:  # noqa: BLE001
+                    d = {"why": "predict() raised after the failing call", "error": f"{type(e).__name__}: {e}"[-300:]}
+                f.close()
+                w.close()
+                ctx.count_case(("failing_call", backend, tuple(pre), op), True,
+                               {"scenario": "failing_call", "backend": backend, "before": [o[0] for o in pre], "op": op[0]})
+                ctx.hist("failing_call", op[0])
+                if err is not None and not changed and d is None:
+                    continue
+                n_bad += 1
+                if n_bad > 2:
+                    continue
+                ctx.violation("after a failing find_matches_to_new_records / compare_two_records call the linker is not what it was"
+                              + ("" if d is None else ": predict() differs from a fresh linker built from the model saved before the call"),
+                              {"case": list(pre) + [op, ("predict",)], "backend": backend,
+                               "implementation": {"raised": err, "changed": changed,
+                                                  "before": {k: snap[k] for k in changed if k != "saved_model"},
+                                                  "after": {k: after[k] for k in changed if k != "saved_model"},
+                                                  "predict_vs_fresh": d},
+                               "specification": "the call raises; saved model, blocking rules, link type and retain flags are unchanged; "
+                                                "predict() equals a fresh linker built from the model saved before the call"},
+                              {"scenario": "failing_call_changes_settings", "op": op[0], "changed": changed})
+    ctx.obligation("failing calls (new record lacking the blocking column, blocking rule on a column that does not exist, record "
+                   "lacking a compared column) raise and leave settings and predict() as before, on new and used linkers", n_bad == 0)
 
 
 def two_linkers(ctx: Ctx, fixes: dict):
@@ -625,7 +727,7 @@ def run(ctx: Ctx):
         "prediction_errors_from_labels_column/_table, estimate_m_from_label_column, estimate_m_from_pairwise_labels, unlinkables, "
         "profile_columns, completeness_chart, blocking-analysis functions, multi-threshold clustering, single best links, "
         "compute_graph_metrics, invalidate_cache and input change + invalidate_cache on "
-        "DuckDB and SQLite (27 operation kinds), plus all histories of length <= 2 over a 13-letter alphabet and of length 3 over its first 11 letters (thorough; quick: length 1 and a seeded 45% of length 2); 30% of the random histories run in a link_and_dedupe world with two input tables; every random history ends with a second table-returning probe operation compared with the fresh linker; "
+        "DuckDB and SQLite (29 operation kinds, two of them calls built to fail: find_matches_to_new_records / compare_two_records on records lacking a needed column or with a blocking rule on a missing column), plus all histories of length <= 2 over a 13-letter alphabet and of length 3 over its first 11 letters (thorough; quick: length 1 and a seeded 45% of length 2); 30% of the random histories run in a link_and_dedupe world with two input tables; every random history ends with a second table-returning probe operation compared with the fresh linker; "
         "a history is non-trivial when it has >= 2 kinds of operation and at least one cache hit; distinct by "
         "(backend, history). Realtime: sequences of compare_records calls over 12 settings models (6 configure() variants x 2 bases) passed as SettingsCreator object / plain dict / dict of creators / file name (str, Path), both flags, both cache modes, 4 records; object creation, mutation, collection with id() reuse; file rewritten between calls and two DatabaseAPIs of different dialects (oracle only).")
     ctx.trusted += [
